@@ -455,6 +455,26 @@ def handler_table(ctx, fname):
     raise AnalysisError('anchor vanished: handler dispatch (dict literal or chain of exchange-type tests) in IkeSa.%s' % fname)
 
 
+def lookup_side(pc, key):
+    """which side of a table lookup by `key` a path condition is on: 'miss' when the KeyError of the lookup was caught or the membership
+    test `key in <table>` failed, 'hit' when nothing else constrains the path (at most the membership test held), else None.
+    The two ways of writing "look it up, fall back when it is not there" - try/except KeyError and `if key in table` - give the same answer."""
+    from ..sval import strip_ids
+    key = strip_ids(key)
+    side = 'hit'
+    for a, val in strip_ids(tuple(pc)):
+        if a[0] == 'caught' and a[1] == ('global', 'builtins.KeyError'):
+            if not val:
+                return None
+            side = 'miss'
+        elif a[0] == 'cmp' and a[1] == 'in' and a[2] == key:
+            if not val:
+                side = 'miss'
+        else:
+            return None
+    return side
+
+
 def notify_field_of(ctx, exc_name, field):
     """value term of argument `field` of the PayloadNOTIFY that from_exception builds for an exception whose class is exactly
     message.<exc_name>: every test `type(ex) == <class>` / isinstance(ex, <class>) is decided - whether the mapping is written as a table
